@@ -22,21 +22,32 @@ type Run struct {
 	Pkg string // repo-relative package
 	Fn  string
 	// per tier: index 0 quick, 1 thorough
-	P        [2]int
-	Ticks    [2]int
-	SwitchOn []string
-	MaxSteps int
-	Bounds   [2]map[string]int
-	Needs    []string // vacuity witnesses that must be reached
-	ThoroughOnly bool
+	P             [2]int
+	Ticks         [2]int
+	SwitchOn      []string
+	MaxSteps      int
+	Bounds        [2]map[string]int
+	Needs         []string // vacuity witnesses that must be reached
+	ThoroughOnly  bool
 	NativeLenient bool // native differential run may legitimately differ (real scheduler): disagreements are reported, not fatal
-	TimeBudgetS [2]int
+	TimeBudgetS   [2]int
+	// Slow selects the slow-plugin default scheduler: a goroutine reaching the end of a plugin call waits until every
+	// other goroutine is blocked or at the end of a plugin call too (longest-waiting first); resuming earlier is a deviation.
+	Slow bool
+}
+
+// Label names the run in output and evidence (a harness may run under both default schedulers).
+func (r *Run) Label() string {
+	if r.Slow {
+		return r.Fn + "@slow"
+	}
+	return r.Fn
 }
 
 type Property struct {
-	ID          string
-	Runs        []Run
-	Assumptions []string
+	ID           string
+	Runs         []Run
+	Assumptions  []string
 	OutsideClaim []string
 }
 
@@ -157,8 +168,22 @@ func cmdCheck(args []string) int {
 	exit := 0
 	nViol := 0
 	replayN := 0
+	only := map[string]bool{}
+	for _, h := range strings.Split(os.Getenv("VERIF_ONLY"), ",") {
+		if h != "" {
+			only[h] = true
+		}
+	}
+	if len(only) > 0 {
+		// development aid: a subset of the property's harnesses; never a verdict on the property
+		ev.Inconclusive = append(ev.Inconclusive, "VERIF_ONLY set: partial run")
+		exit = 2
+	}
 	for _, r := range prop.Runs {
 		if r.ThoroughOnly && ti == 0 {
+			continue
+		}
+		if len(only) > 0 && !only[r.Fn] && !only[r.Label()] {
 			continue
 		}
 		entry, err := findEntry(prog, r.Pkg, r.Fn)
@@ -176,6 +201,9 @@ func cmdCheck(args []string) int {
 		for _, s := range r.SwitchOn {
 			cfg.SwitchOn[s] = true
 		}
+		if r.Slow {
+			cfg.SlowYield = []string{"yield:exit"}
+		}
 		for k, v := range r.Bounds[ti] {
 			cfg.Bounds[k] = v
 		}
@@ -188,7 +216,7 @@ func cmdCheck(args []string) int {
 		}
 		rep := ex.Run()
 		fmt.Printf("[%s %s] %s: paths=%d done=%d faults=%d dropped=%d cut=%d truncated=%d unsupported=%d queries=%d (unsat %d sat %d unknown %d) asserts=%d solver=%.1fs wall=%.1fs\n",
-			id, tier, r.Fn, rep.Paths, rep.Done, rep.Faults, rep.Dropped, rep.Cut, rep.Truncated, rep.Unsupported, rep.Queries, rep.NUnsat, rep.NSat, rep.NUnknown, rep.Asserts, rep.SolverS, rep.WallS)
+			id, tier, r.Label(), rep.Paths, rep.Done, rep.Faults, rep.Dropped, rep.Cut, rep.Truncated, rep.Unsupported, rep.Queries, rep.NUnsat, rep.NSat, rep.NUnknown, rep.Asserts, rep.SolverS, rep.WallS)
 		ev.addReport(&r, rep, cfg)
 
 		// translator validation: sampled symbolic paths are re-run natively (real build, real libraries) under one
@@ -203,7 +231,7 @@ func cmdCheck(args []string) int {
 				if r.P[ti] == 0 {
 					cf.Trace = nil // sequential harness: no schedule to enforce
 				}
-				cexPath := filepath.Join(outDir, fmt.Sprintf("sample-%s-%d.json", r.Fn, si))
+				cexPath := filepath.Join(outDir, fmt.Sprintf("sample-%s-%d.json", r.Label(), si))
 				b, _ := json.MarshalIndent(cf, "", " ")
 				os.WriteFile(cexPath, b, 0o644)
 				verdict, detail := nativeSample(cf, cexPath, outDir)
@@ -214,11 +242,11 @@ func cmdCheck(args []string) int {
 				case "skipped":
 					ev.NativeSkipped++
 				default:
-					ev.NativeDisagree = append(ev.NativeDisagree, r.Fn+": "+trunc(detail, 300))
+					ev.NativeDisagree = append(ev.NativeDisagree, r.Label()+": "+trunc(detail, 300))
 					if r.NativeLenient {
-						fmt.Printf("  note: native re-run of a sampled path of %s differs (schedule-dependent harness): %s\n", r.Fn, trunc(detail, 200))
+						fmt.Printf("  note: native re-run of a sampled path of %s differs (schedule-dependent harness): %s\n", r.Label(), trunc(detail, 200))
 					} else {
-						fmt.Printf("INCONCLUSIVE: a sampled symbolic path of %s does not behave the same natively (encoding or stub defect): %s\n", r.Fn, trunc(detail, 400))
+						fmt.Printf("INCONCLUSIVE: a sampled symbolic path of %s does not behave the same natively (encoding or stub defect): %s\n", r.Label(), trunc(detail, 400))
 						exit = max(exit, 2)
 					}
 				}
@@ -248,7 +276,7 @@ func cmdCheck(args []string) int {
 		}
 		for _, w := range r.Needs {
 			if rep.Reached[w] == 0 {
-				fmt.Printf("INCONCLUSIVE: vacuity witness %q was not reached by any feasible path of %s\n", w, r.Fn)
+				fmt.Printf("INCONCLUSIVE: vacuity witness %q was not reached by any feasible path of %s\n", w, r.Label())
 				ev.Inconclusive = append(ev.Inconclusive, "witness not reached: "+w)
 				exit = max(exit, 2)
 			}
@@ -298,6 +326,15 @@ func cmdCheck(args []string) int {
 			tries := unlisted
 			if len(tries) > 3 {
 				tries = tries[:3]
+			}
+			// a witness whose schedule the replay controller cannot force (goroutines racing between two yield points)
+			// does not reproduce; other witnesses of the same violation are tried before giving up
+			for _, v := range unlisted {
+				tries = append(tries, v.Alternates...)
+			}
+			sort.SliceStable(tries, func(i, j int) bool { return tries[i].Races < tries[j].Races })
+			if len(tries) > 8 {
+				tries = tries[:8]
 			}
 			for _, v := range tries {
 				replayN++
